@@ -52,7 +52,7 @@ def run(ctx):
                 "get_edge pops the head for a new value (count 2, id entered in the table) and answers OutOfMemory exactly at the "
                 "end of the store.")
     ntl = efreelist.check_terminal_links(ctx, F)
-    ctx.floor("E-FREELIST.term.link", "interpreted terminal free-list situations", ntl, 7)
+    ctx.floor("E-FREELIST.term.link", "interpreted terminal free-list situations", ntl, 8)
     nt = eterm.run(ctx, F)
     ctx.floor("E-NUM.terminals", "interpreted terminal situations", nt, 81)
     ctx.explain("Canonicity after reorderings rests on the reordering code keeping the table keyed correctly: E-UNITS (no "
